@@ -549,9 +549,22 @@ def run_case(case: dict) -> dict:
 
             if other_fd is not None:
                 loop.call_later(0.003, poll)
+            # a fault at the "db close" point of the finally block: the real disconnect() runs (the connection is closed), then
+            # the step ends as if it had raised / as if Ctrl-C had been delivered at its await
+            dbclose = case.get("dbclose")
+            from gallia.db.handler import DBHandler
+            real_disconnect = DBHandler.disconnect
+            if dbclose in ("cancel", "raise"):
+                async def faulty_disconnect(self_):
+                    await real_disconnect(self_)
+                    if dbclose == "cancel":
+                        raise asyncio.CancelledError()
+                    raise sqlite3.OperationalError("disk I/O error")
+                DBHandler.disconnect = faulty_disconnect
             try:
                 return await cmd.entry_point()
             finally:
+                DBHandler.disconnect = real_disconnect
                 Env.snap_tp = [e.tester_present_task is None or e.tester_present_task.done() for e in Env.ecus]
                 if wlock == "interrupted":
                     release("after-the-interrupt")
